@@ -365,6 +365,41 @@ pub fn gen_case(rng: &mut Rng) -> Case {
             _ => ops.push(QOp::Close),
         }
     }
+    // a side split by a vertex that lies exactly on it now and then (its two halves are one line to any code
+    // that merges continuing edges)
+    if rng.chance(0.12) {
+        let mut split: Vec<QOp> = Vec::new();
+        let mut cur: Option<(i64, i64)> = None;
+        for op in &ops {
+            if let (QOp::Line(x, y), Some((cx, cy))) = (op, cur) {
+                if (cx + x) % 2 == 0 && (cy + y) % 2 == 0 && (cx, cy) != (*x, *y) && rng.chance(0.6) {
+                    split.push(QOp::Line((cx + x) / 2, (cy + y) / 2));
+                }
+            }
+            match op {
+                QOp::Move(x, y) | QOp::Line(x, y) => cur = Some((*x, *y)),
+                QOp::Close => cur = None,
+            }
+            split.push(op.clone());
+        }
+        ops = split;
+    }
+    // an outline of whole-pixel horizontal and vertical sides that goes on after its Close with sloped lines now
+    // and then (the part after Close continues from the subpath's start and is part of the shape)
+    if rng.chance(0.04) && w >= 6 && h >= 6 {
+        ops.clear();
+        let (x0, y0) = (4 * rng.int(0, 2), 4 * rng.int(0, 2));
+        let (x1, y1) = (x0 + 4 * rng.int(2, w as i64 - 3), y0 + 4 * rng.int(2, h as i64 - 3));
+        ops.push(QOp::Move(x0, y0));
+        ops.push(QOp::Line(x1, y0));
+        ops.push(QOp::Line(x1, y1));
+        ops.push(QOp::Line(x0, y1));
+        ops.push(QOp::Close);
+        if rng.chance(0.8) {
+            ops.push(QOp::Line(x0 + 4 * rng.int(1, 3), y1));
+            ops.push(QOp::Line(x0 + 4 * rng.int(1, 3), y0));
+        }
+    }
     // the whole outline a second (and third) time now and then: identical edges meet in the edge lists, every
     // winding number doubles
     if rng.chance(0.1) {
